@@ -428,11 +428,11 @@ func c13r3(r *R) {
 	// hooks in middlewareStack
 	ms := r.method(".", "HTTPProxy", "middlewareStack")
 	nHooks := 0
-	for _, lit := range ms.AnonFuncs {
-		if len(lit.Params) != 1 {
+	for _, lit := range anonFuncs(ms) {
+		if len(litParams(lit)) != 1 {
 			continue
 		}
-		t := typeStr(lit.Params[0].Type())
+		t := typeStr(litParams(lit)[0].Type())
 		var field, meth string
 		switch t {
 		case "martian.ReadRequestInfo":
@@ -613,7 +613,7 @@ func c13r5(r *R) {
 	// the bound method value really is close of the same metrics object
 	dl := r.method(".", "Dialer", "DialContext")
 	ps, _ = enumPaths(dl, 256, 1)
-	lit := dl.AnonFuncs
+	lit := anonFuncs(dl)
 	for i, p := range ps {
 		key := fmt.Sprintf("Dialer.DialContext#path%d", i)
 		di := p.eventIndex(0, "call", prefix("(*forwarder.dialerMetrics).dial($0.metrics, "))
@@ -717,19 +717,35 @@ func c13r5(r *R) {
 }
 
 func c13r6(r *R) {
-	for _, spec := range []struct{ m, call, add string }{
-		{"Read", "invoke net.Conn.Read($0.Conn, $1)", "addRx"},
-		{"Write", "invoke net.Conn.Write($0.Conn, $1)", "addTx"},
-		{"ReadFrom", "invoke io.ReaderFrom.ReadFrom($0.Conn.(io.ReaderFrom), $1)", "addTx"},
+	for _, spec := range []struct{ m, call, ctr string }{
+		{"Read", "invoke net.Conn.Read($0.Conn, $1)", "rx"},
+		{"Write", "invoke net.Conn.Write($0.Conn, $1)", "tx"},
+		{"ReadFrom", "invoke io.ReaderFrom.ReadFrom($0.Conn.(io.ReaderFrom), $1)", "tx"},
 	} {
 		fn := r.method("conntrack", "conn", spec.m)
-		ps, _ := enumPaths(fn, 8, 1)
+		// the observer's add helpers are walked in place: what counts is the counter that is incremented
+		ps, _ := enumPathsInline(fn, 8, 1, func(c *ssa.Function) bool { return strings.HasPrefix(fname(c), "(*conntrack.Observer).") })
 		good := len(ps) == 1
 		if good {
-			ev := ps[0].effects()
-			good = len(ev) == 2 && ev[0] == spec.call && ev[1] == "(*conntrack.Observer)."+spec.add+"($0.o, "+spec.call+"#0)" &&
+			var ev []string
+			for _, e := range ps[0].effects() {
+				if !strings.HasPrefix(e, "enter ") { // the marker of a helper walked in place
+					ev = append(ev, e)
+				}
+			}
+			good = len(ev) == 2 && ev[0] == spec.call && ev[1] == "(*sync/atomic.Uint64).Add($0.o."+spec.ctr+", "+spec.call+"#0)" &&
 				ps[0].Ret[0] == spec.call+"#0" && ps[0].Ret[1] == spec.call+"#1"
 		}
-		r.check(good, "conntrack.conn."+spec.m, fn.Pos(), spec.add+"(n) with the n returned by the underlying call; results passed through", "byte counter does not add exactly the n the underlying "+spec.m+" returned to "+spec.add)
+		seenEv := ""
+		if len(ps) == 1 {
+			seenEv = strings.Join(ps[0].effects(), " ; ")
+		}
+		r.check(good, "conntrack.conn."+spec.m, fn.Pos(), spec.ctr+" += the n returned by the underlying call; results passed through", "byte counter does not add exactly the n the underlying "+spec.m+" returned to "+spec.ctr+" (effects: "+seenEv+")")
+	}
+	// the accessors report those counters
+	for m, ctr := range map[string]string{"Rx": "rx", "Tx": "tx"} {
+		fn := r.method("conntrack", "Observer", m)
+		ps, _ := enumPaths(fn, 4, 1)
+		r.check(len(ps) == 1 && ps[0].Ret[0] == "(*sync/atomic.Uint64).Load($0."+ctr+")", "conntrack.Observer."+m, fn.Pos(), m+"() reads "+ctr, m+"() does not report the "+ctr+" counter")
 	}
 }
